@@ -11,7 +11,7 @@ Anything else inside a targeted function is ANALYSIS-ERROR (fail closed)."""
 import ast
 from fractions import Fraction
 
-from ..model import AnalysisError, dotted, norm_text, const_value
+from ..model import AnalysisError, dotted, norm_text, const_value, fold_ifexp
 
 
 class Form(object):
@@ -307,6 +307,7 @@ class Kernel(object):
   def step(self, st):
     if isinstance(st, ast.Expr):
       return
+    st = fold_ifexp(st)
     if isinstance(st, ast.Assign) and len(st.targets) == 1:
       t = st.targets[0]
       if isinstance(t, ast.Subscript):
@@ -379,6 +380,8 @@ class Kernel(object):
       for st in stmts:
         if isinstance(st, ast.Expr):
           continue
+        if isinstance(st, ast.If) and isinstance(fold_ifexp(st), ast.Assign):
+          st = fold_ifexp(st)
         if isinstance(st, ast.Return):
           return self.val(st.value)
         if isinstance(st, ast.If):
